@@ -2,6 +2,7 @@
 package props
 
 import (
+	"encoding/json"
 	"fmt"
 	"strings"
 
@@ -149,4 +150,27 @@ func trunc(s string, n int) string {
 		return s[:n] + "..."
 	}
 	return s
+}
+
+// Script is a hand-written history (known findings and regressions of repaired defects).
+type Script struct {
+	Flavour string   `json:"flavour"` // repl (default) | script
+	Steps   []string `json:"steps"`
+	Stdin   string   `json:"stdin,omitempty"`
+	Want    []string `json:"want,omitempty"` // property-specific expectations
+}
+
+func parseScript(raw []byte) (Script, *Hist, error) {
+	var sc Script
+	if err := json.Unmarshal(raw, &sc); err != nil {
+		return sc, nil, err
+	}
+	if sc.Flavour == "" {
+		sc.Flavour = "repl"
+	}
+	h := &Hist{Flavour: sc.Flavour}
+	for _, s := range sc.Steps {
+		h.add(s)
+	}
+	return sc, h, nil
 }
